@@ -72,7 +72,7 @@ Inductive event :=
 | EvObjRef (cls : list N)                              (* visit_obj_ref *)
 | EvRepeat (op : repop) (has_mods on_ref : bool)       (* visit_repeatable_expr with an operator *)
 | EvAssign (attr : list N) (op : aop) (has_mods : bool)(* visit_assignment *)
-| EvRule (boolrep : bool).                             (* visit_textx_rule: _update_attr_multiplicities *)
+| EvRule (boolrep boolmany : bool).                    (* visit_textx_rule: _update_attr_multiplicities, `?=` with many *)
 
 Definition ev_smatch (m : smatch) : list event :=
   match m with SStr s => [EvStr s] | SRe s => [EvRe s] end.
@@ -120,37 +120,111 @@ with ev_rexpr (r : rexpr) : list event :=
   | RX e (Some (op, ms)) _ => ev_expr e ++ ev_mods ms ++ [EvRepeat op (is_some_b ms) (is_some_b (ref_of_expr e))]
   end.
 
-(* _update_attr_multiplicities: is a `?=` assignment reached below a ZeroOrMore/OneOrMore?
-   `many` = the multiplicity handed down is "many".  `#` builds UnorderedGroup(nodes=expr.nodes):
-   the expression itself (also an assignment) is replaced by its sub-nodes. *)
-Fixpoint boolrep_expr (many : bool) (e : expr) : bool :=
-  match e with
-  | EAsg _ OpOpt _ _ => many
-  | EAsg _ _ _ _ => false
-  | EMatch _ _ => false
-  | ERef _ _ => false
-  | EGroup _ c => existsb (existsb (boolrep_rexpr many)) c
-  end
-with boolrep_rexpr (many : bool) (r : rexpr) : bool :=
-  match r with
-  | RX e None _ => boolrep_expr many e
-  | RX e (Some (RStar, _)) _ => boolrep_expr true e
-  | RX e (Some (RPlus, _)) _ => boolrep_expr true e
-  | RX e (Some (ROpt, _)) _ => boolrep_expr many e
-  | RX e (Some (RHash, _)) _ =>
-      match e with
-      | EAsg _ _ _ _ => false            (* nodes = [rhs]: the assignment rule is gone *)
-      | _ => boolrep_expr many e
-      end
+(* The parser-model shape the visitor builds for a rule body (what _update_attr_multiplicities walks):
+   visit_choice / visit_sequence collapse single children, predicates wrap, `#` builds
+   UnorderedGroup(nodes=expr.nodes) and so replaces the expression by its sub-nodes. *)
+Inductive pkind := KSeq | KChoice | KOpt | KStar | KPlus | KUGroup | KPred.
+Inductive pnode :=
+| PRef                                    (* RuleCrossRef *)
+| PMatch                                  (* StrMatch / RegExMatch: nodes = [] *)
+| PAsgn (attr : list N) (op : aop) (rhs_is_ref : bool)   (* __asgn_* rule, nodes = [rhs], root *)
+| PComp (k : pkind) (nodes : list pnode).
+
+Definition wrap_pred (p : bool) (x : pnode) : pnode := if p then PComp KPred [x] else x.
+Definition collapse (k : pkind) (l : list pnode) : pnode := match l with [x] => x | _ => PComp k l end.
+Definition nodes_of (x : pnode) : list pnode :=
+  match x with
+  | PRef => [PRef]                        (* the repaired `#` branch; the pinned code raised before *)
+  | PMatch => []
+  | PAsgn _ _ r => [if r then PRef else PMatch]
+  | PComp _ ns => ns
   end.
 
-Definition boolrep_body (c : choice) : bool := existsb (existsb (boolrep_rexpr false)) c.
+Fixpoint build_expr (e : expr) : pnode :=
+  match e with
+  | EAsg a op rhs _ => PAsgn a op (match rhs with ARef _ => true | ASimple _ => false end)
+  | EMatch p _ => wrap_pred p PMatch
+  | ERef p _ => wrap_pred p PRef
+  | EGroup p c => wrap_pred p (collapse KChoice (map (fun s => collapse KSeq (map build_rexpr s)) c))
+  end
+with build_rexpr (r : rexpr) : pnode :=
+  match r with
+  | RX e None _ => build_expr e
+  | RX e (Some (ROpt, _)) _ => PComp KOpt [build_expr e]
+  | RX e (Some (RStar, _)) _ => PComp KStar [build_expr e]
+  | RX e (Some (RPlus, _)) _ => PComp KPlus [build_expr e]
+  | RX e (Some (RHash, _)) _ => PComp KUGroup (nodes_of (build_expr e))
+  end.
+
+Definition build_body (c : choice) : pnode := collapse KChoice (map (fun s => collapse KSeq (map build_rexpr s)) c).
+
+(* state of the walk: oc_branch_set, the attributes whose multiplicity became many, and whether the
+   "bool assignment inside repetition" error was raised *)
+Record wst := { w_branch : list (list N); w_many : list (list N); w_boolrep : bool }.
+
+Definition add_str (a : list N) (l : list (list N)) : list (list N) := if mem_str a l then l else a :: l.
+Definition union_str (l1 l2 : list (list N)) : list (list N) := fold_left (fun acc a => add_str a acc) l1 l2.
+
+Fixpoint walk (many : bool) (n : pnode) (st : wst) : wst :=
+  match n with
+  | PRef => st
+  | PMatch => st
+  | PAsgn a op _ =>
+      let many' := many || match op with OpPlus | OpStar => true | _ => false end in
+      if many' then {| w_branch := w_branch st; w_many := add_str a (w_many st);
+                       w_boolrep := w_boolrep st || match op with OpOpt => true | _ => false end |}
+      else if mem_str a (w_branch st) then {| w_branch := w_branch st; w_many := add_str a (w_many st); w_boolrep := w_boolrep st |}
+      else {| w_branch := a :: w_branch st; w_many := w_many st; w_boolrep := w_boolrep st |}
+  | PComp KChoice ns =>
+      (* every branch starts from the enclosing set; afterwards the enclosing set is the union *)
+      let base := w_branch st in
+      (fix branches (l : list pnode) (st : wst) (acc : list (list N)) : wst :=
+         match l with
+         | [] => {| w_branch := acc; w_many := w_many st; w_boolrep := w_boolrep st |}
+         | x :: l' =>
+             let st1 := walk many x {| w_branch := base; w_many := w_many st; w_boolrep := w_boolrep st |} in
+             branches l' st1 (union_str (w_branch st1) acc)
+         end) ns st base
+  | PComp k ns =>
+      let many' := many || match k with KStar | KPlus => true | _ => false end in
+      (fix children (l : list pnode) (st : wst) : wst :=
+         match l with
+         | [] => st
+         | x :: l' => children l' (walk many' x st)
+         end) ns st
+  end.
+
+Definition walk_body (c : choice) : wst := walk false (build_body c) {| w_branch := []; w_many := []; w_boolrep := false |}.
+
+(* attributes of the class in creation order with the operator of their first assignment, and the attributes
+   some assignment gave multiplicity many directly (visit_assignment: += and *=) *)
+Fixpoint asg_ops_expr (e : expr) : list (list N * aop) :=
+  match e with
+  | EAsg a op _ _ => [(a, op)]
+  | EMatch _ _ => []
+  | ERef _ _ => []
+  | EGroup _ c => flat_map (flat_map asg_ops_rexpr) c
+  end
+with asg_ops_rexpr (r : rexpr) : list (list N * aop) :=
+  match r with RX e _ _ => asg_ops_expr e end.
+
+Fixpoint first_op (a : list N) (l : list (list N * aop)) : option aop :=
+  match l with
+  | [] => None
+  | (a', op) :: l' => if str_eqb a a' then Some op else first_op a l'
+  end.
+
+Definition boolmany_body (c : choice) : bool :=
+  let ops := flat_map (flat_map asg_ops_rexpr) c in
+  let many := w_many (walk_body c)
+              ++ map fst (filter (fun p => match snd p with OpPlus | OpStar => true | _ => false end) ops) in
+  existsb (fun a => match first_op a ops with Some OpOpt => true | _ => false end) many.
 
 Definition ev_rule (r : rule) : list event :=
   [EvRuleName]
   ++ match r_params r with Some ps => [EvParams ps] | None => [] end
   ++ flat_map (flat_map ev_rexpr) (r_body r)
-  ++ [EvRule (boolrep_body (r_body r))].
+  ++ [EvRule (w_boolrep (walk_body (r_body r))) (boolmany_body (r_body r))].
 
 Definition events (t : tree) : list event := flat_map ev_rule (t_rules t).
 
@@ -231,7 +305,9 @@ Definition step (c : cfg) (o : oracles) (attrs : list (list N)) (e : event) : li
   | EvObjRef cls => (attrs, visit_obj_ref c cls)
   | EvRepeat op hm onr => (attrs, visit_repeatable_expr c op hm onr)
   | EvAssign a op hm => (if mem_str a attrs then attrs else attrs ++ [a], visit_assignment attrs a op hm)
-  | EvRule br => (attrs, if br then TxErr CSemantic WBoolRep else Ok)
+  | EvRule br bm => (attrs, if br then TxErr CSemantic WBoolRep
+                              else if bm then match c_boolmany_check c with Some cl => TxErr cl WBoolMany | None => Ok end
+                              else Ok)
   end.
 
 Fixpoint run_events (c : cfg) (o : oracles) (attrs : list (list N)) (es : list event) : outcome :=
@@ -268,29 +344,79 @@ Definition effective (rs : list rule) : list rule :=
 Definition alias_of (r : rule) : option (list N) :=
   match r_params r with Some _ => None | None => ref_of_choice (r_body r) end.
 
-Inductive lookup_res := LNone | LReal | LAlias (target : list N).
+(* name.rsplit(".", 1) *)
+Fixpoint split_first_dot (acc s : list N) : option (list N * list N) :=
+  match s with
+  | [] => None
+  | x :: s' => if N.eqb x c_dot then Some (rev acc, s') else split_first_dot (x :: acc) s'
+  end.
 
-(* `rule_name in metamodel` / metamodel[rule_name]._tx_peg_rule *)
-Definition lookup_rule (c : cfg) (rs : list rule) (n : list N) : lookup_res :=
-  match last_def n rs with
-  | Some r => match alias_of r with Some t => LAlias t | None => LReal end
-  | None => if mem_str n (c_base_names c) then LReal else LNone
+Definition split_dot (s : list N) : option (list N * list N) :=
+  match split_first_dot [] (rev s) with
+  | Some (rnm, rns) => Some (rev rns, rev rnm)
+  | None => None
+  end.
+
+(* metamodel.referenced_languages after all reference statements *)
+Fixpoint lang_of (ns : list N) (ss : list stmt) : option (list N) :=
+  match ss with
+  | [] => None
+  | SImport :: ss' => lang_of ns ss'
+  | SReference l a :: ss' =>
+      match lang_of ns ss' with
+      | Some l' => Some l'
+      | None => if str_eqb ns (match a with Some x => x | None => l end) then Some l else None
+      end
+  end.
+
+(* TextXMetaModel.__getitem__ on a fully qualified name ns.nm *)
+Inductive qres := QFound (foreign : bool) | QMissing | QErr (o : outcome).
+
+Definition qualified (c : cfg) (o : oracles) (ss : list stmt) (ns nm : list N) : qres :=
+  match lang_of ns ss with
+  | Some l =>
+      match o_ext o l nm with
+      | ExtNotRegistered => QErr (TxErr CRegistration WRegistration)
+      | ExtMissing => QMissing
+      | ExtFound => QFound true
+      | ExtBuiltin found => if c_mmm_getitem c then (if found then QFound true else QMissing) else QErr (Crash KType)
+      end
+  | None => if str_eqb ns s_base && mem_str nm (c_base_names c) then QFound false else QMissing   (* self.namespaces[ns][nm] *)
+  end.
+
+Inductive lookup_res := LNone | LReal | LAlias (target : list N) | LErr (o : outcome).
+
+(* `rule_name in metamodel` (= try self[name] except KeyError) / metamodel[rule_name]._tx_peg_rule *)
+Definition lookup_rule (c : cfg) (o : oracles) (t : tree) (n : list N) : lookup_res :=
+  match split_dot n with
+  | Some (ns, nm) =>
+      match qualified c o (t_stmts t) ns nm with
+      | QFound _ => LReal
+      | QMissing => if c_contains_catches c then LNone else LErr (Crash KKey)
+      | QErr e => LErr e                                   (* not a KeyError: leaves __contains__ *)
+      end
+  | None =>
+      match last_def n (t_rules t) with
+      | Some r => match alias_of r with Some tg => LAlias tg | None => LReal end
+      | None => if mem_str n (c_base_names c) then LReal else LNone
+      end
   end.
 
 (* _resolve_rule on a RuleCrossRef named n; `chain` = alias rules being followed; fuel = Python's
    recursion budget (exhausting it is RecursionError). *)
-Fixpoint follow (c : cfg) (rs : list rule) (fuel : nat) (chain : list (list N)) (n : list N) : outcome :=
+Fixpoint follow (c : cfg) (o : oracles) (t : tree) (fuel : nat) (chain : list (list N)) (n : list N) : outcome :=
   match fuel with
   | O => Crash KRecursion
   | S f =>
-      match lookup_rule c rs n with
+      match lookup_rule c o t n with
       | LNone => TxErr CSemantic WRuleRef                        (* Unexisting rule *)
       | LReal => Ok
-      | LAlias t =>
+      | LErr e => e
+      | LAlias tg =>
           match c_alias_guard c with
           | Some cl => if mem_str n chain then TxErr cl WRuleRef  (* circular definition *)
-                       else follow c rs f (n :: chain) t
-          | None => follow c rs f (n :: chain) t
+                       else follow c o t f (n :: chain) tg
+          | None => follow c o t f (n :: chain) tg
           end
       end
   end.
@@ -332,8 +458,46 @@ Fixpoint first_error (l : list outcome) : outcome :=
   | o :: _ => o
   end.
 
-Definition resolve_rule_refs (c : cfg) (fuel : nat) (rs : list rule) : outcome :=
-  first_error (map (follow c rs fuel []) (all_refs rs)).
+Definition resolve_rule_refs (c : cfg) (o : oracles) (fuel : nat) (t : tree) : outcome :=
+  first_error (map (follow c o t fuel []) (all_refs (t_rules t))).
+
+(* ---------------------------------------------------------------- second pass: _determine_rule_types *)
+(* For a rule whose resolved peg rule carries another rule's name (an alias rule) the class of the target is
+   needed.  Looking it up by `rule.rule_name` fails with KeyError when the chain of (unsuppressed) aliases ends in
+   a rule of a referenced language whose unqualified name is not defined here; a suppressed reference is wrapped
+   in a Sequence that keeps the name as written. *)
+Definition alias_sup (r : rule) : option (list N * bool) :=
+  match alias_of r, r_body r with
+  | Some tg, [[RX _ _ sup]] => Some (tg, sup)
+  | _, _ => None
+  end.
+
+Fixpoint ruletype_target (c : cfg) (o : oracles) (t : tree) (fuel : nat) (r : rule) : outcome :=
+  match fuel with
+  | O => Ok
+  | S f =>
+      match alias_sup r with
+      | None => Ok
+      | Some (_, true) => Ok
+      | Some (tg, false) =>
+          match split_dot tg with
+          | Some (ns, nm) =>
+              match qualified c o (t_stmts t) ns nm with
+              | QFound true =>
+                  match last_def nm (t_rules t) with
+                  | Some _ => Ok
+                  | None => if mem_str nm (c_base_names c) then Ok else Crash KKey
+                  end
+              | _ => Ok
+              end
+          | None => match last_def tg (t_rules t) with Some r' => ruletype_target c o t f r' | None => Ok end
+          end
+      end
+  end.
+
+Definition determine_rule_types (c : cfg) (o : oracles) (fuel : nat) (t : tree) : outcome :=
+  if c_ruletype_by_class c then Ok
+  else first_error (map (ruletype_target c o t fuel) (effective (t_rules t))).
 
 (* ---------------------------------------------------------------- second pass: _resolve_cls_refs *)
 (* attribute types as visit_assignment records them *)
@@ -370,38 +534,15 @@ Fixpoint add_attr (a t : list N) (l : list (list N * list N)) : list (list N * l
 Definition attrs_rule (r : rule) : list (list N * list N) :=
   fold_left (fun acc at_ => add_attr (fst at_) (snd at_) acc) (flat_map (flat_map asgs_rexpr) (r_body r)) [].
 
-Fixpoint split_dot (acc s : list N) : option (list N * list N) :=     (* rsplit(".", 1); at most one dot *)
-  match s with
-  | [] => None
-  | x :: s' => if N.eqb x c_dot then Some (rev acc, s') else split_dot (x :: acc) s'
-  end.
-
-(* metamodel.referenced_languages after all reference statements *)
-Fixpoint lang_of (ns : list N) (ss : list stmt) : option (list N) :=
-  match ss with
-  | [] => None
-  | SImport :: ss' => lang_of ns ss'
-  | SReference l a :: ss' =>
-      match lang_of ns ss' with
-      | Some l' => Some l'
-      | None => if str_eqb ns (match a with Some x => x | None => l end) then Some l else None
-      end
-  end.
-
 (* metamodel[cls_name] inside the try of _resolve_cls *)
 Definition resolve_cls_name (c : cfg) (o : oracles) (t : tree) (n : list N) : outcome :=
   let keyerror := handled (c_keyerror_handler c) WClsRef KKey KKey in
-  match split_dot [] n with
+  match split_dot n with
   | Some (ns, nm) =>
-      match lang_of ns (t_stmts t) with
-      | Some l =>
-          match o_ext o l nm with
-          | ExtNotRegistered => TxErr CRegistration WRegistration
-          | ExtMissing => keyerror
-          | ExtFound => Ok
-          | ExtBuiltin found => if c_mmm_getitem c then (if found then Ok else keyerror) else Crash KType
-          end
-      | None => if str_eqb ns s_base && mem_str nm (c_base_names c) then Ok else keyerror
+      match qualified c o (t_stmts t) ns nm with
+      | QFound _ => Ok
+      | QMissing => keyerror
+      | QErr e => e
       end
   | None =>
       match last_def n (t_rules t) with
@@ -424,8 +565,9 @@ Definition front (c : cfg) (o : oracles) (fuel : nat) (g : ginput) : outcome :=
   | GTree t =>
       seq_out (visit_stmts (t_stmts t))
       (seq_out (run_events c o [] (events t))
-      (seq_out (resolve_rule_refs c fuel (t_rules t))
-               (resolve_cls_refs c o t)))
+      (seq_out (resolve_rule_refs c o fuel t)
+      (seq_out (determine_rule_types c o fuel t)
+               (resolve_cls_refs c o t))))
   end.
 
 Definition has_import (g : ginput) : bool :=
